@@ -30,7 +30,7 @@ PLUGINS = {
     "C01": "harness.p_m1", "C02": "harness.p_m1",
     "C07": "harness.p_m4", "C08": "harness.p_m4", "C09": "harness.p_m4",
     "C10": "harness.p_m5", "C11": "harness.p_m5", "C12": "harness.p_m5",
-    "C16": "harness.p_m7", "C18": "harness.p_m9", "C19": "harness.p_m10", "C17": "harness.p_m8", "C03": "harness.p_m2", "C04": "harness.p_m2",
+    "C16": "harness.p_m7", "C18": "harness.p_m9", "C19": "harness.p_m10", "C17": "harness.p_m8", "C03": "harness.p_m2", "C04": "harness.p_m2", "C15": "harness.p_m2",
     "C13": "harness.p_m6", "C14": "harness.p_m6",
     "C05": "harness.p_m3", "C06": "harness.p_m3", "C20": "harness.p_m3",
 }
